@@ -151,6 +151,29 @@ func (x *Exec) eval(e ast.Expr, env *Env) Term {
 			r = x.eval(e.Y, env)
 			return x.nilCompare(e.Op, r, rt, e.Y, env)
 		}
+		if e.Op == token.EQL || e.Op == token.NEQ {
+			// comparison with a sentinel error of a library (err == io.EOF): errors are Booleans (non-nil) in
+			// this encoding, so the test is "err is non-nil and is that sentinel"; the second part is one
+			// unconstrained Boolean per (error term, sentinel) - consistent when the same test is repeated
+			if sv, other := x.libErrorSentinel(e.X), e.Y; sv != nil || x.libErrorSentinel(e.Y) != nil {
+				if sv == nil {
+					sv, other = x.libErrorSentinel(e.Y), e.X
+				}
+				ov := x.eval(other, env)
+				if ov.Sort == SBool {
+					cname := "is_" + sanitize(sv.Pkg().Name()+"_"+sv.Name()) + "!" + sanitize(ov.S)
+					if len(cname) > 120 {
+						cname = x.named("errv", ov).S + "_is_" + sanitize(sv.Pkg().Name()+"_"+sv.Name())
+					}
+					c := x.W.DeclareConst(cname, SBool)
+					eq := And(ov, c)
+					if e.Op == token.NEQ {
+						return Not(eq)
+					}
+					return eq
+				}
+			}
+		}
 		l = x.eval(e.X, env)
 		r = x.eval(e.Y, env)
 		return x.binop(e.Op, l, r, info.TypeOf(e), rt, env, e.Y, e)
@@ -305,6 +328,30 @@ func (x *Exec) evalObj(obj types.Object, e ast.Expr, env *Env) Term {
 	return Term{}
 }
 
+// libErrorSentinel: e names a package-level error variable of a package outside the module (io.EOF, ...).
+func (x *Exec) libErrorSentinel(e ast.Expr) *types.Var {
+	var id *ast.Ident
+	switch v := ast.Unparen(e).(type) {
+	case *ast.Ident:
+		id = v
+	case *ast.SelectorExpr:
+		id = v.Sel
+	default:
+		return nil
+	}
+	o, ok := x.cx.info.Uses[id].(*types.Var)
+	if !ok || o.Pkg() == nil || o.Parent() != o.Pkg().Scope() {
+		return nil
+	}
+	if x.pkgOf(o.Pkg()) != nil {
+		return nil
+	}
+	if !types.Identical(o.Type(), types.Universe.Lookup("error").Type()) {
+		return nil
+	}
+	return o
+}
+
 // globalVar: package-level variable. Tables initialised by composite literals of constants are read from the AST.
 func (x *Exec) globalVar(o *types.Var) Term {
 	if v, ok := x.globals[o]; ok {
@@ -312,6 +359,12 @@ func (x *Exec) globalVar(o *types.Var) Term {
 	}
 	name := "glob_" + sanitize(o.Pkg().Name()+"_"+o.Name())
 	so := x.W.SortOf(o.Type())
+	if so == SBool && x.pkgOf(o.Pkg()) == nil && types.Identical(o.Type(), types.Universe.Lookup("error").Type()) {
+		// a library's sentinel error used as a value is a non-nil error
+		v := True
+		v.GoT = o.Type()
+		return v
+	}
 	v := x.W.DeclareConst(name, so)
 	v.GoT = o.Type()
 	x.globals[o] = v
